@@ -178,6 +178,31 @@ def rule_typestate(F, ev_unused, R, config, rule="R-TYPESTATE"):
         if name != "partial_deriv":
             ok, msg = finalised_forms(b, name, ("payload", me, "Normal", "0"), lambda e: ("agg", ADT_MBUILDER, "Error", (("0", e),)))
             R.add(rule, config, b.key, name + ":finalises-pending-function-then-retries", ok, msg, b.j["span"])
+    # the two value setters store exactly what they are given: in the Normal state every Normal result is the same unfinished
+    # model with the setter's own optional role replaced by Some(argument) — a later call overrides an earlier one, nothing
+    # else changes (`get_or_insert` instead of an assignment would keep the first value)
+    for name, role in (("initial_parameters", UR["u_init"]), ("independent_variable", UR["u_x"])):
+        if name not in ms:
+            continue
+        b = ms[name]
+        me = ("param", b.key, 1)
+        arg = ("param", b.key, 2)
+        base = ("payload", me, "Normal", "0")
+        normals = [a for a in alts_of(table.get((name, "Normal"))) if a[0] == "agg" and a[1] == ADT_MBUILDER and a[2] == "Normal"]
+        ok, msg = bool(normals), "no Normal result"
+        for a in normals:
+            fv = struct_view(F, a[3][0][1], ADT_UNFINISHED)
+            if fv is None:
+                ok, msg = False, "the resulting model is `%s`" % short(a[3][0][1])[:100]
+                break
+            for fn_, val in fv.items():
+                if fn_ == role:
+                    good = (val[0] == "opt" and val[1] == arg and not val[2]) or (val[0] == "agg" and val[2] == "Some" and val[3][0][1] == arg)
+                    if not good:
+                        ok, msg = False, "`%s` is set to `%s`, not to Some(the given value)" % (fn_, short(val)[:80])
+                elif val != ("field", base, fn_):
+                    ok, msg = False, "`%s` changes as well: `%s`" % (fn_, short(val)[:80])
+        R.add(rule, config, b.key, name + ":stores-the-given-value", ok, "" if ok else "%s(): %s" % (name, msg), b.j["span"])
     # function(): Normal arm starts a function builder on this model
     if "function" in ms:
         b = ms["function"]
